@@ -15,7 +15,7 @@ import re
 from ..model import AnalysisError, unparse
 from ..report import RuleResult
 from ..roles import param
-from ._c16_flow import Locals, called_helpers, element_vars, enclosing, unrolled
+from ._c16_flow import element_vars, enclosing, iterates, prepared, reachable, resolve_call, static_value
 
 _SHIFTED = "shifted_cells__"  # stands for `<input>.cells + <offset>` inside an offset source (a local in the pinned tree)
 _MODULES = ("np", "numpy", "int")
@@ -106,20 +106,7 @@ def _const(ctx, fn, e):
     """The literal a key expression stands for: a constant, or a module / class level name bound to one."""
     if isinstance(e, ast.Constant):
         return e.value
-    v = None
-    if isinstance(e, ast.Name):
-        r = ctx.p.resolve_name(fn.module, e.id)
-        if r and r[0] == "assign":
-            v = r[1][1]
-    elif isinstance(e, ast.Attribute) and isinstance(e.value, ast.Name) and fn.cls is not None:
-        owner = fn.cls if e.value.id in ("self", "cls", fn.self_name or "") else None
-        if owner is None:
-            r = ctx.p.resolve_name(fn.module, e.value.id)
-            owner = r[1] if r and r[0] == "class" else None
-        for c in (owner.mro if owner is not None else []):
-            if not isinstance(c, str) and e.attr in c.class_assigns:
-                v = c.class_assigns[e.attr][0]
-                break
+    v = static_value(ctx.p, fn)(e)
     return v.value if isinstance(v, ast.Constant) else None
 
 
@@ -134,19 +121,28 @@ def _add_operands(n):
     return None
 
 
+def _anchor(ctx, cname, mname):
+    """(class, method as the class sees it): the method may have moved to a base class (template method)."""
+    ci = ctx.p.cls(cname)
+    m = ci.lookup(mname)
+    if m is None or m[1] != "method":
+        raise AnalysisError(f"anchor {cname}.{mname} not found")
+    return ci, m[2]
+
+
 def _cell_offset(ctx, res):
-    cm = ctx.view("CellMerger.create_object")
-    # the function with its private helpers expanded; helpers that cannot be expanded (generators, ...) are searched as they are
+    ci, cm0 = _anchor(ctx, "CellMerger", "create_object")
+    # the function with its helpers expanded, then whatever it reaches that could not be expanded in place: super(), hooks
+    # dispatched on the class (as CellMerger and its subclasses see them), generators
     found = 0
-    for fn in [cm] + [ctx.view(h) for h in called_helpers(ctx.p, cm)]:
-        found += _cell_offset_in(res, cm, fn)
+    for fn, recv in [(ctx.view(cm0), ci)] + reachable(ctx, cm0, ci):
+        found += _cell_offset_in(ctx, res, fn, recv)
     if not found:
         raise AnalysisError("CellMerger.create_object: `<entity>.cells + <offset>` not found")
 
 
-def _cell_offset_in(res, cm, fn) -> int:
-    node = unrolled(fn.node)
-    lc = Locals(node)
+def _cell_offset_in(ctx, res, fn, recv) -> int:
+    node, lc = prepared(ctx, fn, recv)
     sites = []  # (owner of .cells, offset expression, text of the shifted cells)
     shifted_names = set()
     for n in ast.walk(node):
@@ -282,8 +278,7 @@ def _var_slots(ctx, fn, lo, dvar, keys):
 
 def _data_offsets(ctx, res):
     md = ctx.view("BaseMerger.merge_data")
-    node = unrolled(md.node)
-    lc = Locals(node)
+    node, lc = prepared(ctx, md)
     coll = param(md, 1, "input_entities")
     want = {"VERTEX": "n_vertices", "CELL": "n_cells"}
     # the destination of each data's values: `<merged values>[a:b] = <data>.values`
@@ -380,6 +375,10 @@ def _data_offsets(ctx, res):
         hi = lc.expand(upper) if upper is not None else None
         roles = {dvar: "<data>"}
         roles.update({t: "<offsets>" for t in tables + list(slot_key)})
+        for e in (lo, hi):
+            for x in (ast.walk(e) if e is not None else ()):
+                if isinstance(x, ast.Name) and x.id not in roles and lc.is_local(x.id):
+                    roles[x.id] = "<local>"
         shown = _role_text(f"[{unparse(lo) if lo is not None else ''}:{unparse(hi) if hi is not None else ''}]", roles)
         table_read = isinstance(lo, ast.Subscript) and isinstance(lo.value, ast.Name) and lo.value.id in tables
         by_test = _var_slots(ctx, md, lo, dvar, list(want)) is not None
@@ -396,13 +395,9 @@ def _data_offsets(ctx, res):
 
 
 # ---------------------------------------------------------------------- DrapeModelMerger.merge_data
-def _drape_reindex(ctx, res):
-    """The ghost re-indexing visits every child of the output exactly once."""
-    dm = ctx.view("DrapeModelMerger.merge_data")
-    node = unrolled(dm.node)
-    lc = Locals(node)
-    out_name = param(dm, 0, "out_entity")
-    reidx = []
+def _reindex_sites(node, lc):
+    """The stores `x.values = x.values[<index>]` / `np.take(x.values, <index>)` of a function."""
+    out = []
     for n in ast.walk(node):
         if isinstance(n, ast.Assign) and len(n.targets) == 1 and isinstance(n.targets[0], ast.Attribute) and n.targets[0].attr == "values":
             tgt, v = lc.text(n.targets[0]), lc.expand(n.value)
@@ -412,20 +407,107 @@ def _drape_reindex(ctx, res):
             elif isinstance(v, ast.Call) and isinstance(v.func, ast.Attribute) and v.func.attr == "take" and (v.args or v.keywords):
                 src = v.args[0] if isinstance(v.func.value, ast.Name) and v.func.value.id in ("np", "numpy") else v.func.value
             if src is not None and unparse(_unwrapped(src)) == tgt:
-                reidx.append(n)
-    if not reidx:
-        raise AnalysisError("DrapeModelMerger.merge_data: `data.values = data.values[<index map>]` not found")
-    evars = element_vars(node, f"{out_name}.children", lc)
-    for a in reidx:
-        owner = lc.expand(a.targets[0].value)
-        around = [x for x, _ in enclosing(node, a)]
-        ok = isinstance(owner, ast.Name) and owner.id in evars and any(evars[owner.id] is x for x in around)
-        res.inst(f"DrapeModelMerger.merge_data: re-indexing of `{unparse(a.targets[0])}` runs over {out_name}.children", nontrivial=True, ok=ok)
+                out.append(n)
+    return out
+
+
+def _same(a, b) -> bool:
+    """The same function (one of them may be a normalised view)."""
+    return a.name == b.name and a.module is b.module and a.cls is b.cls and a.kind == b.kind
+
+
+def _applications(ctx, caller, cnode, clc, recv, target, pname, coll):
+    """How a per-element helper is applied in `caller`: [ok?] per application.  ok: called inside a comprehension / generator
+    expression whose variable enumerates `coll` with that variable as the argument for `pname`, or handed to map() over `coll`
+    with `pname` as its first explicit parameter."""
+    out = []
+    explicit = target.params[1:] if target.kind in ("method", "classmethod") else target.params
+    for n in ast.walk(cnode):
+        if isinstance(n, (ast.ListComp, ast.SetComp, ast.GeneratorExp)):
+            for c in ast.walk(n.elt):
+                if isinstance(c, ast.Call) and any(_same(t, target) for t, _ in resolve_call(ctx.p, caller, c, recv)):
+                    arg = None
+                    if pname in explicit:
+                        i = explicit.index(pname)
+                        arg = c.args[i] if i < len(c.args) else next((k.value for k in c.keywords if k.arg == pname), None)
+                    g = n.generators[0]
+                    out.append(len(n.generators) == 1 and isinstance(g.target, ast.Name) and isinstance(arg, ast.Name) and arg.id == g.target.id
+                               and iterates(g.iter, coll, clc, 0, True))
+        elif isinstance(n, ast.Call) and unparse(n.func).split(".")[-1] == "map" and len(n.args) == 2 and not n.keywords:
+            f = n.args[0]
+            if isinstance(f, ast.Lambda):
+                # map(lambda c: helper(c, ..), coll): the lambda's parameter is the element
+                a = f.args
+                for c in ast.walk(f.body):
+                    if isinstance(c, ast.Call) and any(_same(t, target) for t, _ in resolve_call(ctx.p, caller, c, recv)):
+                        arg = None
+                        if pname in explicit:
+                            i = explicit.index(pname)
+                            arg = c.args[i] if i < len(c.args) else next((k.value for k in c.keywords if k.arg == pname), None)
+                        out.append(len(a.args) == 1 and not (a.vararg or a.kwarg or a.kwonlyargs or a.posonlyargs) and isinstance(arg, ast.Name)
+                                   and arg.id == a.args[0].arg and iterates(n.args[1], coll, clc, 0, True))
+                continue
+            ref = ast.Call(func=f, args=[], keywords=[])
+            if any(_same(t, target) for t, _ in resolve_call(ctx.p, caller, ref, recv)):
+                out.append(bool(explicit) and explicit[0] == pname and iterates(n.args[1], coll, clc, 0, True))
+    return out
+
+
+def _drape_reindex(ctx, res):
+    """The ghost re-indexing visits every child of the output exactly once."""
+    ci, dm0 = _anchor(ctx, "DrapeModelMerger", "merge_data")
+    dm = ctx.view(dm0)
+    node, lc = prepared(ctx, dm, ci)
+    out_name = param(dm, 0, "out_entity")
+    coll = f"{out_name}.children"
+    found = 0
+
+    def report(fn, a, ok):
+        res.inst(f"DrapeModelMerger.merge_data: re-indexing of `{unparse(a.targets[0])}` runs over {coll}", nontrivial=True, ok=ok)
         if not ok:
             res.find("DrapeModelMerger", "merge_data", "the re-indexed data is not the loop variable of a loop over <out>.children",
-                     f"{dm.module.relpath}:{a.lineno}",
+                     f"{fn.module.relpath}:{a.lineno}",
                      "data looked up by name (names are not unique) are visited twice or never: same-named data of different types keep the "
                      "un-reordered values or are reordered twice")
+
+    evars = element_vars(node, coll, lc, True)
+    for a in _reindex_sites(node, lc):
+        found += 1
+        owner = lc.expand(a.targets[0].value)
+        around = [x for x, _ in enclosing(node, a)]
+        report(dm, a, isinstance(owner, ast.Name) and owner.id in evars and any(evars[owner.id] is x for x in around))
+    # the store may live in something the anchor reaches without it being expandable in place: a hook dispatched on the class,
+    # a helper applied through a comprehension or map()
+    for fn, recv in reachable(ctx, dm0, ci):
+        hnode, hlc = prepared(ctx, fn, recv)
+        sites = _reindex_sites(hnode, hlc)
+        if not sites:
+            continue
+        explicit = fn.params[1:] if fn.kind in ("method", "classmethod") else fn.params
+        # what the anchor passes for each parameter (when it calls the function directly)
+        passed = {}
+        for c in ast.walk(node):
+            if isinstance(c, ast.Call) and any(_same(t, fn) for t, _ in resolve_call(ctx.p, dm, c, ci)):
+                for i, prm in enumerate(explicit):
+                    arg = c.args[i] if i < len(c.args) else next((k.value for k in c.keywords if k.arg == prm), None)
+                    if arg is not None:
+                        passed.setdefault(prm, set()).add(lc.text(arg))
+        for a in sites:
+            found += 1
+            owner = hlc.expand(a.targets[0].value)
+            around = [x for x, _ in enclosing(hnode, a)]
+            ok = False
+            if isinstance(owner, ast.Name) and owner.id in explicit and owner.id not in hlc.defs and owner.id not in hlc.augs:
+                apps = _applications(ctx, dm, node, lc, ci, fn, owner.id, coll)
+                ok = bool(apps) and all(apps)
+            elif isinstance(owner, ast.Name):
+                for prm in explicit:
+                    if passed.get(prm) == {out_name}:
+                        hv = element_vars(hnode, f"{prm}.children", hlc, True)
+                        ok = ok or (owner.id in hv and any(hv[owner.id] is x for x in around))
+            report(fn, a, ok)
+    if not found:
+        raise AnalysisError("DrapeModelMerger.merge_data: `data.values = data.values[<index map>]` not found")
 
 
 def rule_prov(ctx) -> RuleResult:
